@@ -39,6 +39,9 @@ func authnInline(P *Program) func(*ssa.Function) bool {
 }
 
 func runC15(c *Ctx) {
+	defer checkStoreLooksUp(c, "C15.R6", "GetPublicKey", 2, 3, 4)
+	defer checkStoreLooksUp(c, "C15.R6", "GetPublicKeys", 2, 3)
+	defer checkStoreKeyed(c, "C15.R6", storeRow{meth: "SetClientAssertionJWT", table: "BlacklistedJTIs", op: "create", key: 2}, storeRow{meth: "ClientAssertionJWTValid", table: "BlacklistedJTIs", op: "lookup", key: 2})
 	defer checkConfigGetters(c, "C15.R5", "GetGrantTypeJWTBearerIDOptional", "GetGrantTypeJWTBearerIssuedDateOptional", "GetJWTMaxDuration", "GetTokenURLs")
 	c15R1(c)
 	c15R2(c)
